@@ -1,9 +1,173 @@
 import OdcGeo.Model.C07
+import OdcGeo.Drv.C01
 namespace OdcGeo.C07.Drv
-open OdcGeo OdcGeo.IO
+open OdcGeo OdcGeo.IO OdcGeo.C07
+
+/-- shapely's `length` over `Rat`: exact when rational.  The `0` for an irrational length is never
+used: `allRational` is checked first and the driver then answers with loop counts only. -/
+def envRat : Env Rat where
+  len := fun p q => match ratSqrt? (dist2 p q) with
+    | some l => l
+    | none => 0
+  fuel := fuelRat
+
+def parsePt? (s : String) : Option (Pt Rat) :=
+  match s.splitOn ";" with
+  | [x, y] => match parseRat? x, parseRat? y with
+    | some x, some y => some ⟨x, y⟩
+    | _, _ => none
+  | _ => none
+
+def fmtPt (p : Pt Rat) : String := s!"{fmtRat p.x};{fmtRat p.y}"
+def fmtPts (ps : List (Pt Rat)) : String := fmtList fmtPt ps
+
+def edges : List (Pt Rat) → List (Pt Rat × Pt Rat)
+  | a :: b :: rest => (a, b) :: edges (b :: rest)
+  | _ => []
+
+/-- every edge that will be densified has a rational length -/
+def allRational (r : Rat) (cs : List (Pt Rat)) : Bool :=
+  (edges cs).all (fun (p, q) => shortEnough r p q || (ratSqrt? (dist2 p q)).isSome)
+
+/-- per-edge number of inserted vertices, decided on squares -/
+def counts (r : Rat) (cs : List (Pt Rat)) : List Nat :=
+  (edges cs).map (fun (p, q) =>
+    if shortEnough r p q then 0 else countSq (dist2 p q) r (fuelRat r p q) r)
+
+def fmtErrKind (e : ErrKind) : String := e.toStr
+
+def densifyOut (r : Rat) (cs : List (Pt Rat)) : String :=
+  match densify envRat r cs with
+  | .error e => fmtErrKind e
+  | .ok out => if allRational r cs then fmtPts out else "COUNTS " ++ fmtList toString (counts r cs)
+
+/-! geometry token stream: `P x;y` | `MP [pts]` | `L [pts]` | `R [pts]` | `PG k [ext] [h1] … [hk]`
+| `ML n g…` | `MG n g…` | `GC n g…` -/
+
+def takeRings : Nat → List String → Option (List (List (Pt Rat)) × List String)
+  | 0, ts => some ([], ts)
+  | k + 1, t :: ts => do
+    let c ← parseList? parsePt? t
+    let (cs, rest) ← takeRings k ts
+    pure (c :: cs, rest)
+  | _ + 1, [] => none
+
+mutual
+def parseGeom : Nat → List String → Option (Geom Rat × List String)
+  | 0, _ => none
+  | fuel + 1, ts =>
+    match ts with
+    | "P" :: p :: rest => do let p ← parsePt? p; pure (.point p, rest)
+    | "MP" :: ps :: rest => do let ps ← parseList? parsePt? ps; pure (.multiPoint ps, rest)
+    | "L" :: cs :: rest => do let cs ← parseList? parsePt? cs; pure (.lineString cs, rest)
+    | "R" :: cs :: rest => do let cs ← parseList? parsePt? cs; pure (.linearRing cs, rest)
+    | "PG" :: k :: ext :: rest => do
+      let k ← parseNat? k
+      let ext ← parseList? parsePt? ext
+      let (holes, rest) ← takeRings k rest
+      pure (.polygon ext holes, rest)
+    | "ML" :: n :: rest => do
+      let n ← parseNat? n
+      let (gs, rest) ← parseGeoms fuel n rest
+      pure (.multiLineString gs, rest)
+    | "MG" :: n :: rest => do
+      let n ← parseNat? n
+      let (gs, rest) ← parseGeoms fuel n rest
+      pure (.multiPolygon gs, rest)
+    | "GC" :: n :: rest => do
+      let n ← parseNat? n
+      let (gs, rest) ← parseGeoms fuel n rest
+      pure (.collection gs, rest)
+    | _ => none
+def parseGeoms : Nat → Nat → List String → Option (List (Geom Rat) × List String)
+  | 0, _, _ => none
+  | _ + 1, 0, ts => some ([], ts)
+  | fuel + 1, n + 1, ts => do
+    let (g, rest) ← parseGeom fuel ts
+    let (gs, rest) ← parseGeoms fuel n rest
+    pure (g :: gs, rest)
+end
+
+mutual
+def fmtGeom : Geom Rat → List String
+  | .point p => ["P", fmtPt p]
+  | .multiPoint ps => ["MP", fmtPts ps]
+  | .lineString cs => ["L", fmtPts cs]
+  | .linearRing cs => ["R", fmtPts cs]
+  | .polygon ext holes => ["PG", toString holes.length, fmtPts ext] ++ holes.map fmtPts
+  | .multiLineString gs => ["ML", toString (lenGeoms gs)] ++ fmtGeoms gs
+  | .multiPolygon gs => ["MG", toString (lenGeoms gs)] ++ fmtGeoms gs
+  | .collection gs => ["GC", toString (lenGeoms gs)] ++ fmtGeoms gs
+def fmtGeoms : List (Geom Rat) → List String
+  | [] => []
+  | g :: gs => fmtGeom g ++ fmtGeoms gs
+def lenGeoms : List (Geom Rat) → Nat
+  | [] => 0
+  | _ :: gs => lenGeoms gs + 1
+end
+
+def geomStr (g : Geom Rat) : String := " ".intercalate (fmtGeom g)
+
+def ringsAllRational (r : Rat) (g : Geom Rat) : Bool := (rings g).all (allRational r)
+
+/-- the stand-in projection of the `tocrs` operation (the harness installs the same map as the
+transformer of the real code): an exact affine map that depends on both CRS records -/
+def fakeProj (s t : C01.CrsRec) (p : Pt Rat) : Pt Rat :=
+  ⟨2 * p.x + p.y + (s.objId : Rat), p.y - p.x / 2 + (t.objId : Rat) * 4⟩
+
+def parseRes? (s : String) : Option (Resolution Rat × Rat) :=
+  if s = "N" then some (.none, 0)
+  else if s = "nf" then some (.nonfinite, 0)
+  else match s.splitOn ":" with
+    | ["auto", v] => (parseRat? v).map (fun v => (.auto, v))
+    | [v] => (parseRat? v).map (fun v => (.val v, 0))
+    | _ => none
+
+def parseCoord? (s : String) : Option (Coord Rat) :=
+  if s = "nan" then some .nan else (parseRat? s).map Coord.fin
+
+def fmtCoord : Coord Rat → String
+  | .nan => "nan"
+  | .fin v => fmtRat v
+
+def parseCPt? (s : String) : Option (Coord Rat × Coord Rat) :=
+  match s.splitOn ";" with
+  | [x, y] => match parseCoord? x, parseCoord? y with
+    | some x, some y => some (x, y)
+    | _, _ => none
+  | _ => none
 
 def run (args : List String) : Option String :=
   match args with
+  | ["densify", r, cs] => do
+    let r ← parseRat? r; let cs ← parseList? parsePt? cs
+    pure (densifyOut r cs)
+  | "seg" :: r :: toks => do
+    let r ← parseRat? r
+    let (g, rest) ← parseGeom 64 toks
+    if rest ≠ [] then none
+    else if !(ringsAllRational r g) && decide (0 < r) then pure "IRRATIONAL"
+    else match segmentize envRat r g with
+      | .error e => pure (fmtErrKind e)
+      | .ok g' => pure (geomStr g')
+  | "tocrs" :: src :: dst :: res :: toks => do
+    let src ← C01.Drv.parseTag? src; let dst ← C01.Drv.parseTag? dst
+    let (res, autoV) ← parseRes? res
+    let (g, rest) ← parseGeom 64 toks
+    if rest ≠ [] then none
+    else
+      let r? : Option Rat := match res with
+        | .val r => some r | .auto => some autoV | _ => none
+      let irr := match r? with
+        | some r => decide (0 < r) && !(ringsAllRational r g)
+        | none => false
+      if irr then pure "IRRATIONAL"
+      else match toCrs envRat fakeProj (fun _ => autoV) ⟨src, g⟩ dst res with
+        | .error e => pure (fmtErrKind e)
+        | .ok g' => pure (C01.Drv.fmtTag g'.crs ++ " " ++ geomStr g'.geom)
+  | ["harm", pts] => do
+    let ps ← parseList? parseCPt? pts
+    pure (fmtList (fun (p : Coord Rat × Coord Rat) => s!"{fmtCoord p.1};{fmtCoord p.2}") (ps.map harmonise))
   | _ => none
 
 end OdcGeo.C07.Drv
